@@ -143,8 +143,11 @@ class World:
         if self.rs is None:
             return dict(NOSET)
         kind = self.rs_rec['kind']
-        basis = self.rs._basis
-        items = [self.rs] if kind == 'single' else [self.rs[j] for j in range(len(self.rs_rec['items']))]
+        basis = self.rs._basis if kind != 'system' else self.rs.reactions[0]._basis
+        if kind == 'system':
+            items = list(self.rs.reactions)
+        else:
+            items = [self.rs] if kind == 'single' else [self.rs[j] for j in range(len(self.rs_rec['items']))]
         return dict(kind=kind, basis=basis, items=[self._item(it, basis, None) for it in items])
 
     def project(self):
@@ -201,6 +204,8 @@ class World:
             rx = [self._mkrxn(it, st['basis']) for it in st['items']]
             if st['kind'] == 'single':
                 self.rs = rx[0]
+            elif st['kind'] == 'system':
+                self.rs = tmo.ReactionSystem(*rx)
             else:
                 self.rs = (tmo.ParallelReaction if st['kind'] == 'parallel' else tmo.SeriesReaction)(rx)
             self.rs_rec = st
@@ -210,7 +215,8 @@ class World:
             self.th.chemicals.refresh_constants()
             return
         if op == 'dH':
-            v = self.rs.dH if self.rs_rec['kind'] == 'single' else self.rs[a['j'] - 1].dH
+            k = self.rs_rec['kind']
+            v = self.rs.dH if k == 'single' else (self.rs.reactions[a['j'] - 1].dH if k == 'system' else self.rs[a['j'] - 1].dH)
             if np.ndim(v) != 0:
                 raise TypeError('dH is not a scalar: %r' % (v,))
             return dict(dH=fx3(v))
@@ -226,7 +232,7 @@ class World:
 
 
 def random_set(rng):
-    kind = rng.choice(['single', 'single', 'parallel', 'series'])
+    kind = rng.choice(['single', 'single', 'parallel', 'series', 'system'])
     basis = rng.choice(['mol', 'mol', 'wt'])
     tagged = rng.random() < 0.6
     n = 1 if kind == 'single' else 2
